@@ -720,6 +720,8 @@ impl Scenario for TsigScn {
 
 struct World {
     lib_key: Key,
+    /// Other keys a server's key store may hold (other names, other secrets).
+    decoys: Vec<Key>,
     mk: MKey,
     fudge: u16,
     t0: u64,
@@ -776,6 +778,21 @@ async fn run(_tier: Tier) {
     };
     let secret: Vec<u8> = (0..16 + sim::draw("key.secret_len", 80)).map(|i| (i as u8).wrapping_mul(37).wrapping_add(11)).collect();
     let key_name = *sim::pick("key.name", &["tsig-key.example.", "K.", "a.very.long.key-name.in.some.zone.example."]);
+    // RFC 8945 section 5.2.2.1: a MAC may be truncated to no less than half
+    // the digest and no less than ten octets (and cannot be longer than the
+    // digest): a key configured otherwise must be refused.
+    if sim::chance("key.try_bounds", 1, 8) {
+        let cands = [0usize, 1, 9, 10, 11, native / 2 - 1, native / 2, native / 2 + 1, native - 1, native, native + 1, 1000];
+        let a = *sim::pick("key.bound_min", &cands);
+        let b = *sim::pick("key.bound_sign", &cands);
+        let legal = |l: usize| l >= 10.max(native / 2) && l <= native;
+        let got = Key::new(lib_alg(alg), &secret, KeyName::from_str(key_name).unwrap(), Some(a), Some(b)).is_ok();
+        sim::stat("probe.key_bounds_tried");
+        if got != (legal(a) && legal(b)) {
+            sim::violation(P, "conformance", "key-truncation-bounds".to_string(), format!("Key::new({}, min_mac_len {}, signing_len {}) {} (digest length {}; RFC 8945 allows truncation to no less than max(10, half the digest))", ALG_NAMES[alg], a, b, if got { "was accepted" } else { "was refused" }, native));
+            return;
+        }
+    }
     let lib_key = match Key::new(lib_alg(alg), &secret, KeyName::from_str(key_name).unwrap(), min_mac, sign_len) {
         Ok(k) => k,
         Err(e) => {
@@ -802,8 +819,13 @@ async fn run(_tier: Tier) {
             _ => f / 2,
         }
     };
+    let decoys = vec![
+        Key::new(lib_alg(alg), b"a-decoy-secret-of-sufficient-length", KeyName::from_str("decoy-one.example.").unwrap(), None, None).expect("decoy key"),
+        Key::new(Algorithm::Sha1, b"another-decoy-secret-0123456789", KeyName::from_str("Q.").unwrap(), None, None).expect("decoy key"),
+    ];
     let w = World {
         lib_key,
+        decoys,
         mk,
         fudge,
         t0: 1_700_000_000 + sim::draw("t0", 1000),
@@ -898,6 +920,20 @@ impl<CR: domain::net::client::request::ComposeRequest + Send + Sync> domain::net
             Ok(m)
         })))
     }
+}
+
+
+/// A key store holding the run's key among decoys with other names (the
+/// lookup is by name - case-insensitively, as names compare - and algorithm).
+fn map_store(w: &World) -> std::collections::HashMap<(KeyName, Algorithm), &Key> {
+    let mut m = std::collections::HashMap::new();
+    m.insert((w.lib_key.name().clone(), w.lib_key.algorithm()), &w.lib_key);
+    for (i, decoy) in w.decoys.iter().enumerate() {
+        if sim::chance("store.decoy", 1, 2) || i == 0 {
+            m.insert((decoy.name().clone(), decoy.algorithm()), decoy);
+        }
+    }
+    m
 }
 
 /// `net::client::tsig::Connection` over an honest, slow server whose clock
@@ -1139,7 +1175,13 @@ fn transaction(w: &World) {
         Ok(m) => m,
         Err(_) => return, // shorter than a header: never reaches TSIG code
     };
-    let res = ServerTransaction::request(&&w.lib_key, &mut msg, t48(now_s));
+    // The server finds the key in a single-key store or in a map.
+    let res = if sim::chance("store.map", 1, 3) {
+        sim::stat("probe.key_found_in_a_map_store");
+        ServerTransaction::request(&map_store(w), &mut msg, t48(now_s))
+    } else {
+        ServerTransaction::request(&&w.lib_key, &mut msg, t48(now_s))
+    };
     let (st, accepted_req_mac) = match (res, &verdict) {
         (Ok(None), Verdict::NoTsig) => return,
         (Ok(Some(st)), Verdict::Accept { restored, mac, .. }) => {
@@ -1336,7 +1378,13 @@ fn lib_sequence(w: &World) {
     };
     let now_s = w.now_s(0);
     let mut msg = Message::from_octets(signed_req.clone()).unwrap();
-    let mut sseq = match ServerSequence::request(&&w.lib_key, &mut msg, t48(now_s)) {
+    let seq_res = if sim::chance("store.map", 1, 3) {
+        sim::stat("probe.key_found_in_a_map_store");
+        ServerSequence::request(&map_store(w), &mut msg, t48(now_s))
+    } else {
+        ServerSequence::request(&&w.lib_key, &mut msg, t48(now_s))
+    };
+    let mut sseq = match seq_res {
         Ok(Some(s)) => s,
         Ok(None) => {
             viol("completeness", "server-saw-no-tsig/seq".into(), "ServerSequence::request found no TSIG in a signed request".into());
